@@ -388,7 +388,10 @@ func convertReflectTypeToSchemaWithDepth(t reflect.Type, maxDepth int) *openapi3
 // convertTypeWithDepthLimit converts any type with depth tracking.
 func convertTypeWithDepthLimit(t reflect.Type, visited map[reflect.Type]*openapi3.Schema, depth int) *openapi3.Schema {
 	if depth <= 0 {
-		schema := openapi3.NewObjectSchema()
+		// Below the depth limit nothing is known about the value: it may be of
+		// any type (this function is called for numbers and strings too), so the
+		// schema does not constrain it.
+		schema := openapi3.NewSchema()
 		schema.Description = "Depth limit reached"
 		return schema
 	}
